@@ -68,7 +68,7 @@ def gen_params(rng):
     npr = rng.randint(1, 4)
     nh = rng.choice([3, 4, 5, 6, 8, 11, 16, 23, 38, 41, 45, 60, 82, 95, 120])
     ne = rng.choice([None, None, 1, rng.randint(1, ns * (no + 1))])
-    npe = rng.choice([None, None, 1, rng.randint(1, npr * (no + 1))])
+    npe = rng.choice([None, None, 1, rng.randint(1, npr * (no + 1)), rng.randint(npr, npr * (no + 1))])
     ep = rng.choice([None, "mixed", 1.0, 0.75, 0.3])
     if rng.random() < 0.15:
         n_e = ne if ne is not None else ns
@@ -141,6 +141,8 @@ def run_case(args):
             params["seed"] = rng.randint(0, 1000)
         elif kind.startswith("shipped:"):
             return run_shipped(kind.split(":")[1], res)
+        elif kind.startswith("history:"):
+            return run_history(kind.split(":")[1], rng, res)
         else:
             params = gen_params(rng)
         res["params"] = {k: v for k, v in params.items()}
@@ -222,6 +224,31 @@ def run_case(args):
     return res
 
 
+def run_history(name, rng, res):
+    """C14: a generated benchmark, NumPy seeded identically, in a fresh process vs a process with a
+    history of other (seeded and unseeded) benchmark constructions"""
+    try:
+        base = run_worker(dict(_benchmark_history=dict(name=name, prior=[])), 0)
+        prior = [[name, rng.randint(0, 50)], [rng.choice(BENCH), None], [name, None]]
+        hist = run_worker(dict(_benchmark_history=dict(name=name, prior=prior)), 0)
+        res["hashseeds"] += 2
+        if not (base.get("ok") and hist.get("ok")):
+            res["findings"].append(dict(property="C14", kind="failing-input",
+                what=f"benchmark {name} could not be generated: {base.get('error') or hist.get('error')}",
+                replay=dict(kind="gen-history", name=name, prior=prior)))
+        elif base["fingerprint"] != hist["fingerprint"]:
+            res["findings"].append(dict(property="C14", kind="failing-input",
+                what=f"np.random.seed(123); make_benchmark_scenario('{name}') gives a different scenario after "
+                     f"earlier constructions in the same process than in a fresh process",
+                replay=dict(kind="gen-history", name=name, prior=prior,
+                            fresh=base["fingerprint"][:16], with_history=hist["fingerprint"][:16])))
+        res["sample"] = dict(history=prior, name=name)
+    except Exception as e:
+        res["error"] = "".join(traceback.format_exception(type(e), e, e.__traceback__))[-3000:]
+    res["sites"] = dict(res["sites"])
+    return res
+
+
 def run_shipped(name, res):
     """C16 for a shipped benchmark: model plan replayed on the real environment"""
     orig_rand = np.random.rand
@@ -259,7 +286,7 @@ def run(tier, seed):
     import runner
     b = BUDGET[tier]
     kinds = ["random"] * b["n_random"] + [f"bench:{n}" for n in BENCH] * b["bench_rep"] \
-        + [f"shipped:{n}" for n in SHIPPED]
+        + [f"shipped:{n}" for n in SHIPPED] + [f"history:{n}" for n in (BENCH[:3] if tier == "quick" else BENCH)]
     tasks = [(seed, i, k, tier) for i, k in enumerate(kinds)]
     rs = runner.pmap(run_case, tasks)
     errors = [dict(idx=r["idx"], kind=r["kind"], error=r["error"]) for r in rs if r["error"]]
